@@ -26,7 +26,7 @@ def c19(tier):
                 ck.violation("Reload.tla (%s, %s): %s" % (variant, inv, r.violation), {"tlc": r.raw_tail[-2500:]})
     # write sequences for the real watchers
     rnd = random.Random(seed())
-    nseq = 48 if tier == "quick" else 1600
+    nseq = 48 if tier == "quick" else 4000
     seqs = []
     variants = ["opl", "opl", "opl", "json", "yaml", "toml"]
     for i in range(nseq):
